@@ -248,6 +248,14 @@ class ElementList(MutableSequence):
             except KeyError:
                 self.indexes[child.name] = [child]
             self.list.insert(index, child)
+        elif child.parent == self.element and child in self.list:
+            # the child was not attached yet: _can_add_child has set its parent, which has appended it to the
+            # children. Move it to the requested position
+            self.list.remove(child)
+            self.list.insert(index, child)
+            if by_name_index != -1:
+                self.indexes[child.name].remove(child)
+                self.indexes[child.name].insert(by_name_index, child)
 
     def append(self, child):
         """
